@@ -185,6 +185,54 @@ def _text_methods(ctx):
     return out
 
 
+def _numbered_at_construction(ctx, b, rv):
+    """the vector assigned to `words` carries consecutive offsets by construction: either it is collected from a chain that
+    ends `.enumerate().map(|(i, w)| WordShape { offset: i, ..w })`, or it is filled by a push loop in which every pushed word
+    was given `offset = vec.len()` just before"""
+    sy = ctx.sym(b)
+    v = S.strip_refs(sy.rvalue(rv))
+    if v[0] == "call" and v[1].endswith("Iterator::collect"):
+        src, stages = U.chain(v)
+        names = [s_[0] for s_ in stages]
+        if len(names) >= 3 and names[-3:] == ["enumerate", "map", "collect"]:
+            cb = U.closure_body(ctx, stages[-2][1][0]) if stages[-2][1] else None
+            if cb is not None:
+                r = S.strip_refs(ctx.sym(cb).local(0))
+                if r[0] == "agg" and r[1] == "adt" and "offset" in [str(n) for n in r[4]]:
+                    off = S.strip_refs(r[3][[str(n) for n in r[4]].index("offset")])
+                    return off[:3] == ("field", ("arg", 2), "0")
+        return False
+    # push loop
+    src = rv["op"].get("move") or rv["op"].get("copy") if rv["k"] == "use" else None
+    if src is None or src["p"]:
+        return False
+    k = src["l"]
+    vexpr = S.strip_sites(S.strip_refs(sy.local(k)))
+    if not (v[0] == "call" and v[1].endswith(("Vec::with_capacity", "Vec::new"))):
+        return False
+    pushes = 0
+    for bi, t in b.calls():
+        if not t["args"]:
+            continue
+        recv = S.strip_sites(S.strip_refs(sy.operand(t["args"][0])))
+        if recv != vexpr:
+            continue
+        m = (t.get("cn") or "").rsplit("::", 1)[-1]
+        if m in ("len", "capacity", "reserve", "is_empty", "as_slice", "iter"):
+            continue
+        if m != "push":
+            return False
+        e = S.strip_refs(sy.operand(t["args"][1]))
+        ups = [u for u in e[2] if u[0] == "offset"] if e[0] == "upd" else []
+        if len(ups) != 1:
+            return False
+        val = S.strip_sites(S.strip_refs(ups[0][2]))
+        if not (val[0] == "call" and val[1].endswith("::len") and val[2] and S.strip_refs(val[2][0]) == vexpr):
+            return False
+        pushes += 1
+    return pushes >= 1
+
+
 def renumber_after_mutation(ctx, rule, floor=2):
     """R15.d: every Text method that replaces / filters `words` renumbers offsets afterwards"""
     tm = _text_methods(ctx)
@@ -235,6 +283,15 @@ def renumber_after_mutation(ctx, rule, floor=2):
                                     ren.append(bi)
         key = "renumber:%s" % name
         ok = False
+        # words replaced by a vector whose elements were numbered while it was built
+        for bi, si, st in b.iter_stmts():
+            if st["k"] == "assign" and not b.blocks[bi]["cleanup"] and st["place"]["p"] and (bi, "assign") in muts:
+                pth = U.field_path(sy.dest(st["place"]))
+                if not (pth and pth[2] == ["words"]):
+                    continue
+                if _numbered_at_construction(ctx, b, st["rv"]) and \
+                        all(mb == bi or (cfg.every_path_passes(mb, [bi]) and not cfg.path_exists(bi, mb)) for mb, _ in muts):
+                    ok = True
         for rb in ren:
             # loop header of the renumber loop post-dominates every mutation
             hdr = cfg.loop_header(rb)
@@ -263,6 +320,33 @@ def drop_empty_after_strip(ctx, rule):
     rets = [(bi, t) for (bi, t, rk, m) in U.receiver_events(ctx, b) if m == "retain"
             and (U.field_path(rk) or (None, None, []))[2] == ["words"]]
     key = "retain-nonempty"
+    if strips and not rets:
+        # fused form: the stripped words are pushed into a fresh vector, the empty ones are passed over
+        sy = ctx.sym(b)
+        for pb, pt in b.calls():
+            if not U.callee_is(pt, "Vec::push"):
+                continue
+            guarded = False
+            for sb, bl in enumerate(b.blocks):
+                t = bl["term"]
+                if not t or t["k"] != "switch" or bl["cleanup"]:
+                    continue
+                bt = U.bool_switch_targets(t)
+                lt = U.len_test(sy.operand(t["discr"]))
+                if not bt or lt is None:
+                    continue
+                x, f = lt
+                if not (f(0) in (True, False) and f(1) == f(2) == f(50) != f(0)):
+                    continue
+                empty_side = bt[1] if f(0) else bt[0]
+                hdr = cfg.inner_header(pb)
+                if all(cfg.dominates(s_, sb) for s_ in strips) and cfg.dominates(sb, pb) and \
+                        not cfg.path_exists(empty_side, pb, avoid=[hdr] if hdr is not None else []):
+                    guarded = True
+            if guarded:
+                ctx.ok(rule, key, where(b, pb, pt), "emptied words are passed over when the stripped words are collected (push guarded by len > 0)",
+                       nontrivial=True)
+                return
     if not strips or not rets:
         ctx.fail(rule, key, b.where(), "Text::strip does not drop emptied words (no `words.retain(..)` after stripping)",
                  {"witness": "title 'a $ b' keeps an empty word: Word::len underflows / empty words are matched"})
@@ -451,6 +535,70 @@ def notalpha_fallback(ctx, rule):
                  {"witness": "title 'b-cd', query 'bcd'"})
 
 
+def _run_counter(ctx, b, l, rev):
+    """local `l` counts a run of pattern characters by hand: it starts at 0 and is incremented only where the pattern matched
+    the character at index `l` (leading run) or at index `len - 1 - l` (trailing run, rev=True)"""
+    from .. import bounds as B_
+    sy = ctx.sym(b)
+    cfg = ctx.cfg(b)
+    ds = b.defs().get(l, [])
+    incs = []
+    for kind, dbi, dsi, node in ds:
+        if kind != "assign":
+            return False
+        v = B_.lin(sy.rvalue(node["rv"]))
+        if not v.co and v.c == 0:
+            continue
+        if v.co == {("var", l): 1} and v.c == 1:
+            incs.append(dbi)
+        else:
+            return False
+    if len(incs) != 1:
+        return False
+    ib = incs[0]
+    for sb, bl in enumerate(b.blocks):
+        t = bl["term"]
+        if not t or t["k"] != "switch" or bl["cleanup"] or not cfg.dominates(sb, ib):
+            continue
+        bt = U.bool_switch_targets(t)
+        if not bt:
+            continue
+        e = S.strip_refs(sy.operand(t["discr"]))
+        ms = [c for c in S.walk(e) if isinstance(c, tuple) and c and c[0] == "call" and c[1].endswith("CharPattern::matches")]
+        if len(ms) != 1 or not (e[0] == "call" and e[1].endswith("Option::unwrap_or") and len(e[2]) == 2 and
+                                U.is_const(e[2][1]) and S.const_value(e[2][1]) is False):
+            continue
+        idx = [a for a in ms[0][2] for y in [S.strip_refs(a)] if y[0] == "index"]
+        if len(idx) != 1:
+            continue
+        il = B_.lin(S.strip_refs(idx[0])[2])
+        lead = il.co == {("var", l): 1} and il.c == 0
+        trail = il.c == -1 and il.co.get(("var", l)) == -1 and len(il.co) == 2 and \
+            all(k == ("var", l) or (isinstance(k, tuple) and k and k[0] == "len" and c == 1) for k, c in il.co.items())
+        if (trail if rev else lead) and cfg.dominates(bt[1], ib) and not cfg.path_exists(bt[0], ib, avoid=[cfg.inner_header(ib)]):
+            return True
+    return False
+
+
+def _is_word_len(e):
+    """the length of the parent word, however it is read: word.len(), chars[word.slice.0 .. word.slice.1].len(), or
+    word.slice.1 - word.slice.0"""
+    e = S.strip_refs(e)
+    if e[0] == "call" and e[1].endswith("Word::len"):
+        return True
+    def sl(x, k):
+        p = U.field_path(x)
+        return bool(p and p[2][-2:] == ["slice", str(k)])
+    if e[0] == "call" and e[1].endswith("::len") and e[2]:
+        x = S.strip_refs(e[2][0])
+        if x[0] == "call" and x[1].endswith("Index::index") and len(x[2]) == 2:
+            r = S.strip_refs(x[2][1])
+            return r[0] == "agg" and r[2].endswith("Range::Range") and len(r[3]) == 2 and sl(r[3][0], 0) and sl(r[3][1], 1)
+    if e[0] == "binop" and e[1] == "Sub":
+        return sl(e[2], 1) and sl(e[3], 0)
+    return False
+
+
 def word_shape_rules(ctx, rule):
     """R15.h: WordSplit::next and WordShape::strip keep the `fin` flag and the slice arithmetic in shape"""
     facts = ctx.facts
@@ -476,6 +624,8 @@ def word_shape_rules(ctx, rule):
                             asg.setdefault(".".join(pth[2] + [str(i_)]), []).append((bi, st, comp))
         def is_count_of(e, rev):
             e = S.strip_refs(e)
+            if e[0] in ("phi", "local") and isinstance(e[1], int):
+                return _run_counter(ctx, b, e[1], rev)
             calls = [c[1].rsplit("::", 1)[-1] for c in S.walk(e) if isinstance(c, tuple) and c and c[0] == "call"]
             return ("count" in calls) and (("rev" in calls) == rev)
         k = "strip-slice"
@@ -522,7 +672,7 @@ def word_shape_rules(ctx, rule):
             if st["k"] == "assign" and st["rv"]["k"] == "binop" and st["rv"]["op"] == "Lt" and not nb.blocks[bi]["cleanup"]:
                 e = sy.rvalue(st["rv"])
                 lhs, rhs = e[2], e[3]
-                if lhs[0] == "binop" and lhs[1] == "Add" and rhs[0] == "call" and rhs[1].endswith("Word::len"):
+                if lhs[0] == "binop" and lhs[1] == "Add" and _is_word_len(rhs):
                     found = True
         k = "split-fin"
         if found:
@@ -740,8 +890,10 @@ def per_word_stages_unconditional(ctx, rule, stages=("strip", "set_stem", "set_p
                 continue
             src, st = U.chain(sy.operand(t["args"][0]))
             p = U.field_path(src)
-            if not (p and p[2] and p[2][-1] == "words") or [s_ for s_ in st if s_[0] not in ("iter", "iter_mut", "into_iter")]:
+            if not (p and p[2] and p[2][-1] == "words") or [s_ for s_ in st if s_[0] not in ("iter", "iter_mut", "into_iter", "drain")]:
                 continue
+            if any(s_[0] == "drain" and not (s_[1] and "RangeFull" in str(S.strip_refs(s_[1][0]))) for s_ in st):
+                continue                # draining a sub-range does not visit every word
             h = cfg.inner_header(bi)
             if h is None:
                 continue
